@@ -239,7 +239,7 @@ def h_versym(ctx):
     sec = GV.GNUVerSymSection(_shdr(sh_type='SHT_GNU_versym', sh_offset=base, sh_size=2 * k, sh_entsize=2), '.gnu.version', elf, _SymDouble(ctx, names))
     ctx.outcome('ok')
     ctx.check_eq('versym/num_symbols', sec.num_symbols(), k)
-    got = list(sec.iter_symbols())
+    got = ctx.drain(sec.iter_symbols())
     ctx.check_eq('versym/count', len(got), k)
     for i, s in enumerate(got):
         ctx.check_eq('versym/name', s.name, names[i])
